@@ -28,6 +28,7 @@ type Src struct {
 	Namespaces, NotNamespaces               []string `json:",omitempty"`
 	IpBlocks, NotIpBlocks                   []string `json:",omitempty"`
 	RemoteIpBlocks, NotRemoteIpBlocks       []string `json:",omitempty"`
+	ServiceAccounts, NotServiceAccounts     []string `json:",omitempty"`
 }
 type Op struct {
 	Hosts, NotHosts     []string `json:",omitempty"`
@@ -83,6 +84,7 @@ func toProto(r Rule) *authzpb.Rule {
 			Namespaces: s.Namespaces, NotNamespaces: s.NotNamespaces,
 			IpBlocks: s.IpBlocks, NotIpBlocks: s.NotIpBlocks,
 			RemoteIpBlocks: s.RemoteIpBlocks, NotRemoteIpBlocks: s.NotRemoteIpBlocks,
+			ServiceAccounts: s.ServiceAccounts, NotServiceAccounts: s.NotServiceAccounts,
 		}})
 	}
 	for _, o := range r.To {
@@ -168,7 +170,8 @@ func srcTerm(s Src) string {
 		"s_request_principals", strs(s.RequestPrincipals), "s_not_request_principals", strs(s.NotRequestPrincipals),
 		"s_namespaces", strs(s.Namespaces), "s_not_namespaces", strs(s.NotNamespaces),
 		"s_ip_blocks", strs(s.IpBlocks), "s_not_ip_blocks", strs(s.NotIpBlocks),
-		"s_remote_ip_blocks", strs(s.RemoteIpBlocks), "s_not_remote_ip_blocks", strs(s.NotRemoteIpBlocks))
+		"s_remote_ip_blocks", strs(s.RemoteIpBlocks), "s_not_remote_ip_blocks", strs(s.NotRemoteIpBlocks),
+		"s_service_accounts", strs(s.ServiceAccounts), "s_not_service_accounts", strs(s.NotServiceAccounts))
 }
 func opTerm(o Op) string {
 	return ctor("Build_operation", "o_hosts", strs(o.Hosts), "o_not_hosts", strs(o.NotHosts), "o_ports", strs(o.Ports), "o_not_ports", strs(o.NotPorts),
@@ -181,7 +184,7 @@ func ruleTerm(r Rule) string {
 	return ctor("Build_rule", "from", vlib.ListOf(r.From, srcTerm), "to", vlib.ListOf(r.To, opTerm), "when", vlib.ListOf(r.When, condTerm))
 }
 func polTerm(p Pol) string {
-	return ctor("Build_policy", "p_id", vlib.NI(p.ID), "p_action", p.Action, "p_dry_run", vlib.B(p.Dry), "p_rules", vlib.ListOf(p.Rules, ruleTerm))
+	return ctor("Build_policy", "p_id", vlib.NI(p.ID), "p_ns", vlib.Str(p.NS), "p_action", p.Action, "p_dry_run", vlib.B(p.Dry), "p_rules", vlib.ListOf(p.Rules, ruleTerm))
 }
 func optsTerm(o Opts) string {
 	return ctor("Build_options", "tcp", vlib.B(o.TCP), "use_filter_state", vlib.B(o.UseFilterState), "trust_domains", strs(o.TrustDomains))
@@ -226,11 +229,13 @@ var (
 	prVals = []string{"cluster.local/ns/foo/sa/a", "cluster.local/ns/bar/sa/b", "td2/ns/foo/sa/a", "old-td/ns/prod/sa/c",
 		"*/ns/foo/sa/a", "*/sa/a", "*/sa/a.b", "cluster.local/ns/foo/*", "cluster.local/*", "*", "td2/*", "cluster.local/ns/foo-sys/sa/a.b",
 		"*-td/ns/foo/sa/a", "sa/a", "foo/sa/a"}
-	ipVals    = []string{"10.0.0.1", "10.0.0.0/24", "10.1.0.0/16", "0.0.0.0/0", "10.0.0.77/24", "192.168.1.5/32", "10.0.1.0/25", "172.16.0.0/12"}
-	badIPs    = []string{"10.0.0.256", "bogus", "10.0.0.0/33", "", "10.0.0.1/", "1.2.3", "01.2.3.4", "10.0.0.0/024"}
-	hostVals  = []string{"example.com", "*.example.com", "api.*", "EXAMPLE.com", "*", "api.example.com", "example.com:8080", "*.COM"}
-	methVals  = []string{"GET", "POST", "*", "P*", "*T", "DELETE", "get"}
-	pathVals  = []string{"/api", "/api/*", "*/info", "*", "/a.b", "/api/v1/info", "/", "/api*", "*.html", "/a+b/*"}
+	ipVals   = []string{"10.0.0.1", "10.0.0.0/24", "10.1.0.0/16", "0.0.0.0/0", "10.0.0.77/24", "192.168.1.5/32", "10.0.1.0/25", "172.16.0.0/12"}
+	badIPs   = []string{"10.0.0.256", "bogus", "10.0.0.0/33", "", "10.0.0.1/", "1.2.3", "01.2.3.4", "10.0.0.0/024"}
+	hostVals = []string{"example.com", "*.example.com", "api.*", "EXAMPLE.com", "*", "api.example.com", "example.com:8080", "*.COM"}
+	methVals = []string{"GET", "POST", "*", "P*", "*T", "DELETE", "get"}
+	pathVals = []string{"/api", "/api/*", "*/info", "*", "/a.b", "/api/v1/info", "/", "/api*", "*.html", "/a+b/*",
+		"/admin/{*}", "/api/{**}", "/a/{*}/b/{**}", "/public/{*}/info", "/v1/{**}/end", "{*}/x"}
+	saVals    = []string{"a", "b", "batch", "foo/a", "bar/b", "prod/c", "default", "a.b", "istio-system/a"}
 	portVals  = []string{"80", "8080", "443", "9090", "0", "65535", "080"}
 	badPorts  = []string{"http", "70000", "", "-1", "80 ", "4294967376", "+80"}
 	sniVals   = []string{"www.example.com", "*.example.com", "www.*", "*", "db.internal"}
@@ -298,7 +303,7 @@ func genSrc(r *vlib.Rand, g genCfg) Src {
 				s.Principals, s.NotPrincipals = fill(r, prVals, nil, false)
 			}
 		default:
-			s.Namespaces, s.NotNamespaces = fill(r, nsVals, nil, false)
+			s.ServiceAccounts, s.NotServiceAccounts = fill(r, saVals, nil, false)
 		}
 	}
 	return s
@@ -327,6 +332,11 @@ func genWhen(r *vlib.Rand, g genCfg) Cond {
 	n := 9
 	if g.jwt {
 		n = 13
+	}
+	if r.Chance(15) {
+		w.Key = "source.serviceAccount"
+		w.Values, w.NotValues = fill(r, saVals, nil, false)
+		return w
 	}
 	switch r.Intn(n) {
 	case 0:
@@ -445,6 +455,13 @@ func sp(s string) *string { return &s }
 
 // concretisations of one policy value: strings that match it and near misses
 func around(v string) []string {
+	if strings.Contains(v, "{*}") || strings.Contains(v, "{**}") {
+		sub := func(one, any string) string {
+			return strings.ReplaceAll(strings.ReplaceAll(v, "{**}", any), "{*}", one)
+		}
+		return []string{sub("x", "y/z"), sub("x", ""), sub("", "y"), sub("x/w", "y"), sub("x", "y"), sub("x", "y/z") + "/more",
+			strings.TrimSuffix(sub("x", ""), "/"), sub("x.y", "/"), "/zz" + sub("x", "y")}
+	}
 	switch {
 	case v == "*":
 		return []string{"", "anything"}
@@ -568,6 +585,20 @@ func buildPools(ps []Pol, tds []string) *pools {
 			}
 		}
 	}
+	addSA := func(pol Pol, vs []string) {
+		for _, v := range vs {
+			ns, sa := pol.NS, v
+			if i := strings.IndexByte(v, '/'); i >= 0 {
+				ns, sa = v[:i], v[i+1:]
+			}
+			for _, n := range []string{ns, pol.NS, "p" + strconv.Itoa(pol.ID), "other"} {
+				for _, a := range []string{sa, sa + "x", "x" + sa, sa + "-junk", strings.ReplaceAll(sa, ".", "X")} {
+					td := []string{"cluster.local", "td2"}[(len(n)+len(a))%2]
+					p.peers = append(p.peers, sp(td+"/ns/"+n+"/sa/"+a))
+				}
+			}
+		}
+	}
 	addIPs := func(dst *[]uint32, vs []string) {
 		for _, v := range vs {
 			*dst = append(*dst, ipsAround(v)...)
@@ -611,6 +642,8 @@ func buildPools(ps []Pol, tds []string) *pools {
 				addIPs(&p.remIPs, s.NotRemoteIpBlocks)
 				addRP(s.RequestPrincipals)
 				addRP(s.NotRequestPrincipals)
+				addSA(pol, s.ServiceAccounts)
+				addSA(pol, s.NotServiceAccounts)
 			}
 			for _, o := range ru.To {
 				addStr(&p.hosts, o.Hosts)
@@ -639,6 +672,8 @@ func buildPools(ps []Pol, tds []string) *pools {
 					addNS(all)
 				case w.Key == "source.principal":
 					addPeers(all)
+				case w.Key == "source.serviceAccount":
+					addSA(pol, all)
 				case w.Key == "request.auth.principal":
 					addRP(all)
 				case w.Key == "request.auth.audiences":
@@ -854,12 +889,18 @@ func tagsOf(o Opts, ps []Pol, g genCfg) []string {
 				mark("namespaces", s.Namespaces, s.NotNamespaces)
 				mark("ipBlocks", s.IpBlocks, s.NotIpBlocks)
 				mark("remoteIpBlocks", s.RemoteIpBlocks, s.NotRemoteIpBlocks)
+				mark("serviceAccounts", s.ServiceAccounts, s.NotServiceAccounts)
 			}
 			for _, op := range ru.To {
 				mark("hosts", op.Hosts, op.NotHosts)
 				mark("ports", op.Ports, op.NotPorts)
 				mark("methods", op.Methods, op.NotMethods)
 				mark("paths", op.Paths, op.NotPaths)
+				for _, v := range append(append([]string{}, op.Paths...), op.NotPaths...) {
+					if strings.Contains(v, "{*}") || strings.Contains(v, "{**}") {
+						set["path-template"] = true
+					}
+				}
 			}
 			for _, w := range ru.When {
 				k := w.Key
@@ -1004,7 +1045,7 @@ func TestGen(t *testing.T) {
 			var rulePools []*pools
 			for _, pol := range ps {
 				for _, ru := range pol.Rules {
-					rulePools = append(rulePools, buildPools([]Pol{{Rules: []Rule{ru}}}, o.TrustDomains))
+					rulePools = append(rulePools, buildPools([]Pol{{ID: pol.ID, NS: pol.NS, Rules: []Rule{ru}}}, o.TrustDomains))
 				}
 			}
 			reqs := make([]Req, 0, nreq)
